@@ -166,7 +166,7 @@ func (s *Sampler) pickClass(n *Node) rune {
 }
 
 func (s *Sampler) emit(n *Node, out []rune) []rune {
-	if len(out) > 80 {
+	if len(out) > 160 {
 		return out // nested repeats and back-references multiply; inputs are capped anyway
 	}
 	switch n.K {
@@ -264,8 +264,8 @@ func (s *Sampler) Directed(root *Node, extra []rune) []rune {
 			out = out[:i]
 		}
 	}
-	if len(out) > 40 {
-		out = out[:40]
+	if len(out) > 130 {
+		out = out[:130]
 	}
 	return out
 }
